@@ -292,6 +292,21 @@ func (w *Writer) writeDot4PackedCharsIfNeeded(handle ir.ExpressionHandle) error 
 // Expressions with side effects include function calls, image samples/loads,
 // derivatives, and atomics.
 func (w *Writer) isPureExpression(handle ir.ExpressionHandle) bool {
+	return w.isPureExpressionMemo(handle, map[ir.ExpressionHandle]bool{})
+}
+
+// isPureExpressionMemo visits every sub-expression once: operands are shared
+// in an expression DAG (let a1 = a0 + a0; let a2 = a1 + a1; ...).
+func (w *Writer) isPureExpressionMemo(handle ir.ExpressionHandle, memo map[ir.ExpressionHandle]bool) bool {
+	if r, ok := memo[handle]; ok {
+		return r
+	}
+	r := w.isPureExpressionUncached(handle, memo)
+	memo[handle] = r
+	return r
+}
+
+func (w *Writer) isPureExpressionUncached(handle ir.ExpressionHandle, memo map[ir.ExpressionHandle]bool) bool {
 	if w.currentFunction == nil {
 		return false
 	}
@@ -303,28 +318,28 @@ func (w *Writer) isPureExpression(handle ir.ExpressionHandle) bool {
 	case ir.Literal, ir.ExprConstant, ir.ExprZeroValue, ir.ExprSplat:
 		return true
 	case ir.ExprBinary:
-		return w.isPureExpression(k.Left) && w.isPureExpression(k.Right)
+		return w.isPureExpressionMemo(k.Left, memo) && w.isPureExpressionMemo(k.Right, memo)
 	case ir.ExprUnary:
-		return w.isPureExpression(k.Expr)
+		return w.isPureExpressionMemo(k.Expr, memo)
 	case ir.ExprSelect:
-		return w.isPureExpression(k.Condition) &&
-			w.isPureExpression(k.Accept) &&
-			w.isPureExpression(k.Reject)
+		return w.isPureExpressionMemo(k.Condition, memo) &&
+			w.isPureExpressionMemo(k.Accept, memo) &&
+			w.isPureExpressionMemo(k.Reject, memo)
 	case ir.ExprCompose:
 		for _, c := range k.Components {
-			if !w.isPureExpression(c) {
+			if !w.isPureExpressionMemo(c, memo) {
 				return false
 			}
 		}
 		return true
 	case ir.ExprAs:
-		return w.isPureExpression(k.Expr)
+		return w.isPureExpressionMemo(k.Expr, memo)
 	case ir.ExprAccessIndex:
-		return w.isPureExpression(k.Base)
+		return w.isPureExpressionMemo(k.Base, memo)
 	case ir.ExprAccess:
-		return w.isPureExpression(k.Base) && w.isPureExpression(k.Index)
+		return w.isPureExpressionMemo(k.Base, memo) && w.isPureExpressionMemo(k.Index, memo)
 	case ir.ExprSwizzle:
-		return w.isPureExpression(k.Vector)
+		return w.isPureExpressionMemo(k.Vector, memo)
 	case ir.ExprLocalVariable, ir.ExprGlobalVariable, ir.ExprFunctionArgument:
 		return true
 	default:
